@@ -106,6 +106,76 @@ def probe_insts():
     return [(ty[n % 4], p) for n, p in enumerate(PROBE_PATTERNS)] + [("i", ("d", "d")), ("l", ("d", "d", "d"))]
 
 
+# instantiations named by corpus / replay cases that the generated set of the current tier may not contain
+EXTRA = {"inst": [], "xcv": [], "acc": [], "probe": []}
+
+
+def parse_inst(x):
+    t, _, ps = x.partition(":")
+    if t not in TYPES:
+        raise ValueError(x)
+    return t, tuple() if ps in ("-", "") else tuple("d" if q == "d" else int(q) for q in ps.split(","))
+
+
+def corpus_cases():
+    cp = os.path.join(V.VERIF, "corpus", "C14", "cases.txt")
+    if not os.path.exists(cp):
+        return []
+    return [l.strip() for l in open(cp) if l.strip() and not l.startswith("#")]
+
+
+def set_extra(cases):
+    """Every case that names an instantiation gets it compiled, whatever the tier's generated set is."""
+    ex = {"inst": [], "xcv": [], "acc": [], "probe": []}
+    for c in cases:
+        t = c.split()
+        if len(t) < 2:
+            continue
+        op, inst = t[0], t[1]
+        try:
+            if op == "xcv":
+                a, b = inst.split(">")
+                (ts_, ps), (td, pd) = parse_inst(a), parse_inst(b)
+                ex["xcv"].append((ts_, ps, td, pd, None))
+            elif op in ("acc", "elt"):
+                ex["acc"].append(parse_inst(inst))
+            elif op.startswith("p") and op[1:2].isdigit():
+                if op != "p6crit":
+                    ex["probe"].append(parse_inst(inst))
+            elif op != "span":
+                ex["inst"].append(parse_inst(inst))
+        except ValueError:
+            pass
+    for k in ex:
+        seen, out = set(), []
+        for x in ex[k]:
+            key = x[:4] if k == "xcv" else x
+            if key not in seen:
+                seen.add(key); out.append(x)
+        EXTRA[k] = out
+
+
+def all_insts(thorough):
+    I = all_insts(thorough)
+    return I + [x for x in EXTRA["inst"] if x not in I]
+
+
+def all_xcv(thorough):
+    X = xcv_pairs(thorough)
+    have = set(x[:4] for x in X)
+    return X + [x for x in EXTRA["xcv"] if x[:4] not in have]
+
+
+def all_acc():
+    A = acc_insts()
+    return A + [x for x in EXTRA["acc"] if x not in A]
+
+
+def all_probe():
+    P = probe_insts()
+    return P + [x for x in EXTRA["probe"] if x not in P]
+
+
 def gen_sources(ctx, nparts, thorough, tag):
     gd = ctx.path("gen_" + tag)
     os.makedirs(gd, exist_ok=True)
@@ -140,7 +210,7 @@ def gen_sources(ctx, nparts, thorough, tag):
         src = os.path.join(gd, "tu_%d.cc" % k)
         open(src, "w").write("\n".join(L[:2] + pre + L[2:]) + "\n")
         srcs.append(src)
-    XP = xcv_pairs(thorough) if tag != "san" or thorough else []   # quick: the sanitizer variant only runs view/array/span cases
+    XP = all_xcv(thorough) if tag != "san" or thorough else []   # quick: the sanitizer variant only runs view/array/span cases
     nx = (len(XP) + 11) // 12
     for j in range(nx):
         k = nparts + j
@@ -155,7 +225,7 @@ def gen_sources(ctx, nparts, thorough, tag):
         srcs.append(src)
     nparts += nx
     # custom accessors / other containers and element types: one translation unit per layout
-    AI = acc_insts()
+    AI = all_acc()
     for j, l in enumerate("LRS"):
         k = nparts + j
         L = ['#include "c14_acc.hh"', "namespace c14 {"]
@@ -165,7 +235,7 @@ def gen_sources(ctx, nparts, thorough, tag):
         for n, (t, p) in enumerate(AI):
             L.append("using AX%d = %s;" % (n, ctype(t, p)))
             ent.append('    {"acc/%s/%s", &run_acc<%s, AX%d>},' % (l, iname(t, p), LAYC[l], n))
-            if l != "S" and n % 2 == 0:
+            if l != "S" and (n % 2 == 0 or n >= len(acc_insts())):
                 ent.append('    {"elt/%s/%s", &run_elt<%s, AX%d>},' % (l, iname(t, p), LAYC[l], n))
         L += ["const std::vector<Entry>& tab_%d() {" % k, "  static const std::vector<Entry> t = {"] + ent + ["  };", "  return t;", "}", "}"]
         src = os.path.join(gd, "tu_%d.cc" % k)
@@ -180,7 +250,7 @@ def gen_sources(ctx, nparts, thorough, tag):
     srcs.append(src)
     # probes
     probes = {}
-    PI = probe_insts()
+    PI = all_probe()
     for pn, ops in ((1, [("p1cvt", "run_p1cvt", "LR"), ("p1fs", "run_p1fs", "LR")]), (2, [("p2conv", "run_p2conv", "LRS")]),
                     (3, [("p3alloc", "run_p3alloc", "LR")]), (4, [("p4eq", "run_p4eq", "LR")]), (5, [("p5r0", "run_p5r0", "LR")])):
         L = ['#include "c14_probes.hh"', "namespace c14 {"]
@@ -313,9 +383,7 @@ def gen(ctx, I, PI):
     rng = ctx.rng("gen")
     quick = ctx.quick
     cases = []
-    cp = os.path.join(V.VERIF, "corpus", "C14", "cases.txt")
-    if os.path.exists(cp):
-        cases += [l.strip() for l in open(cp) if l.strip() and not l.startswith("#")]
+    cases += corpus_cases()
     DV = VALS + ([4, 7] if not quick else [])
     for t, p in I:
         nm = iname(t, p)
@@ -838,6 +906,11 @@ def judge(ctx, cases, io, mo, perr, stats):
         m = m.strip()
         op = c.split()[0]
         stats[op] = stats.get(op, 0) + 1
+        if a.startswith("NO-INSTANCE") or a.startswith("UNKNOWN"):
+            ndis += 1
+            ctx.violation("corr:C14/no-instance", {"broken": "corr:C14/harness (generator emitted a case whose template instantiation is not compiled: generator/harness bug, "
+                                                   "not a statement about the code under verification)", "case": c, "impl": a[:300], "model": m[:300]}, found_input=False)
+            continue
         r = oracle(c, a, m)
         if r is not None:
             nviol += 1
@@ -871,6 +944,7 @@ def run(ctx):
     thorough = not ctx.quick
     model = V.build_model(ctx)
     ctx.log("model built")
+    set_extra(corpus_cases())      # before any build: corpus-named instantiations are part of every tier
     from concurrent.futures import ThreadPoolExecutor
     pool = ThreadPoolExecutor(max_workers=1)
     san_future = pool.submit(build_impl, ctx, thorough, True)
@@ -938,6 +1012,7 @@ def replay(ctx, path):
     rep = json.load(open(path))
     case = rep["case"]
     model = V.build_model(ctx)
+    set_extra(corpus_cases() + [case])
     impl, perr = build_impl(ctx, not ctx.quick, False)
     mo = V.run_cases(ctx, [model], [case], tag="rmodel")
     io = V.run_cases(ctx, [impl], [case], tag="rimpl", timeout=30)
